@@ -16,8 +16,11 @@ T: real MachineController / BMPController objects over a simulated network: the 
    One trace = one controller driven through nested `with` blocks (plain and application blocks), exits by
    exception caught at any enclosing level, and command calls with the contextual arguments given positionally /
    by keyword / left to the context or the default / left unset.  Connections are discovered by rig's own
-   discover_connections() against the simulated machine (any subset of Ethernet links up).  Judged by
-   ContextTrace.tla.
+   discover_connections() against the simulated machine (any subset of Ethernet links up).  The caller also uses
+   the rest of the public API of the context objects that ctrl(...) and ctrl.application(...) return:
+   before_close(f, ...) - functions of the caller's own, registered before the block is entered, inside it, again on a
+   kept object that is entered again, none / one / several in one call, in several calls; a function records that it
+   was called, calls a command of the controller, or raises.  Judged by ContextTrace.tla.
 
 This file contains no oracle: it drives rig, records what was sent and encodes it.
 """
@@ -476,6 +479,55 @@ def execute(drv, setup, program, label=""):
             emark[0] = len(net.log)
             return out
 
+        pending = []               # datagrams a leave put on the wire before a callback of the caller took its turn
+
+        def left():
+            """The datagrams of the leave itself (not those of commands that the caller's callbacks called)."""
+            out = pending + flush()
+            del pending[:]
+            return out
+
+        def do_invoke(node):
+            used.add(node["meth"])
+            if node["meth"] == "load_application":
+                net.count_reply = sum(len(c) for c in drv.star["load_application"][1].values())
+            pos, kw = drv.materialise(node["meth"], node["pos_enc"], node["kw_enc"])
+            try:
+                rv = getattr(ctrl, node["meth"])(*pos, **kw)
+                outcome = ["ok"]
+                if node["meth"] == "sdram_alloc_as_filelike":
+                    files.append([rv, False])
+            except Exception as ex:       # judged by the spec
+                outcome = ["raise", type(ex).__name__]
+            net.count_reply = 3
+            evs.append(["invoke", node["meth"], node["pos_enc"], node["kw_enc"], outcome, flush()])
+
+        def callback(spec):
+            """A function of the caller's, to be registered with before_close(...)."""
+            def fn():
+                pending.extend(flush())
+                evs.append(["cb", spec["id"], ctx_now()])
+                if spec["do"] == "invoke":
+                    # (the machine's refusal of stop signals, when the program asks for one, is aimed at the block's
+                    # own stop, not at what the caller's function sends)
+                    held, net.fail_signals = net.fail_signals, False
+                    try:
+                        do_invoke(spec["call"])
+                    finally:
+                        net.fail_signals = held
+                elif spec["do"] == "raise":
+                    raise Boom()
+            return fn
+
+        def register(cm, node, when):
+            """The caller's before_close(...) calls on the context object of `node` that are due at this point."""
+            for reg in node.get("cbs") or ():
+                if reg["when"] == when:
+                    try:
+                        cm.before_close(*[callback(spec) for spec in reg["fns"]])
+                    except Exception as ex:       # judged by the spec (no such event is expected)
+                        evs.append(["register-failed", type(ex).__name__])
+
         def run_nodes(nodes):
             # context objects may be made long before they are entered
             early = {id(n): ctrl(**n["map"]) for n in nodes if n["t"] == "block" and n.get("early")}
@@ -514,19 +566,7 @@ def execute(drv, setup, program, label=""):
                         outcome = ["raise", type(ex).__name__]
                     evs.append(["fileop", i + 1, node["op"], outcome, flush()])
                 elif node["t"] == "invoke":
-                    used.add(node["meth"])
-                    if node["meth"] == "load_application":
-                        net.count_reply = sum(len(c) for c in drv.star["load_application"][1].values())
-                    pos, kw = drv.materialise(node["meth"], node["pos_enc"], node["kw_enc"])
-                    try:
-                        rv = getattr(ctrl, node["meth"])(*pos, **kw)
-                        outcome = ["ok"]
-                        if node["meth"] == "sdram_alloc_as_filelike":
-                            files.append([rv, False])
-                    except Exception as ex:       # judged by the spec
-                        outcome = ["raise", type(ex).__name__]
-                    net.count_reply = 3
-                    evs.append(["invoke", node["meth"], node["pos_enc"], node["kw_enc"], outcome, flush()])
+                    do_invoke(node)
                 elif node["kind"] == "foreign":
                     # a block of ANOTHER controller object: it is no context of ctrl, so no event is recorded
                     with other(**node["map"]):
@@ -558,6 +598,7 @@ def execute(drv, setup, program, label=""):
                 cm = kept[node["keep"]]
             else:
                 cm = made if made is not None else ctrl(**node["map"])
+            register(cm, node, "pre")
             try:
                 try:
                     with cm:
@@ -571,25 +612,27 @@ def execute(drv, setup, program, label=""):
                         else:
                             evs.append(["enter", pairs(node["map"]), ctx_now(), flush(),
                                         0 if node.get("keep") is None else node["keep"] + 1])
+                        register(cm, node, "in")
                         run_nodes(node["children"])
+                        register(cm, node, "late")
                         net.fail_signals = bool(node.get("stop_fails"))
                         if node["raises"]:
                             raise Boom()
                 finally:
                     net.fail_signals = False
             except Boom:
-                evs.append(["exit", "exception", flush(), ctx_now()])
+                evs.append(["exit", "exception", left(), ctx_now()])
                 if not node["catches"]:
                     raise
             except scp_connection.SCPError:
                 # the stop signal of an application block was refused by the machine: the block is left by the
                 # error its exit raised (which replaces any exception that was propagating)
-                evs.append(["exit", "exception", flush(), ctx_now()])
+                evs.append(["exit", "exception", left(), ctx_now()])
             except Exception as ex:
                 # leaving the block failed in some other way: recorded, judged by the spec (ExitCompletes)
-                evs.append(["exit", "error " + type(ex).__name__, flush(), ctx_now()])
+                evs.append(["exit", "error " + type(ex).__name__, left(), ctx_now()])
             else:
-                evs.append(["exit", "normal", flush(), ctx_now()])
+                evs.append(["exit", "normal", left(), ctx_now()])
 
         try:
             run_nodes(program)
@@ -614,9 +657,49 @@ def execute(drv, setup, program, label=""):
 HEAVY = ("get_system_info", "get_routing_table_entries", "discover_connections", "get_p2p_routing_table")
 
 
-def block(kind, children, raises=False, catches=True, map=None, call=None, early=False, stop_fails=False, keep=None):
+def block(kind, children, raises=False, catches=True, map=None, call=None, early=False, stop_fails=False, keep=None,
+          cbs=None):
+    """cbs: the caller's before_close(...) calls on the block's context object, a list of
+    dict(when="pre" (before the block is entered) | "in" (inside, at the start of the body) | "late" (inside, at the
+    end of the body), fns=[dict(id=n, do="mark" | "invoke" (with call=an invoke node) | "raise"), ...])."""
     return dict(t="block", kind=kind, map=map or {}, call=call, children=children, raises=raises, catches=catches,
-                early=early, stop_fails=stop_fails, keep=keep)
+                early=early, stop_fails=stop_fails, keep=keep, cbs=cbs or [])
+
+
+def draw_registrations(drv, rng, draw_values, counter, pool, shape=None, raising=True):
+    """before_close(...) calls of the caller: shape = [(when, number of functions), ...] or None (random)."""
+    if shape is None:
+        shape = [(rng.choice(("pre", "pre", "in", "late")), rng.choice((1, 1, 1, 2, 3, 0)))
+                 for _ in range(rng.choice((1, 1, 2, 3)))]
+    regs = []
+    for when, nfn in shape:
+        fns = []
+        for _ in range(nfn):
+            counter[0] += 1
+            r = rng.random()
+            if r < 0.55 or not pool:
+                fns.append(dict(id=counter[0], do="mark"))
+            elif r < 0.94 or not raising:
+                fns.append(dict(id=counter[0], do="invoke",
+                                call=drv.make_call(rng.choice(pool), rng, draw_values(), rng.choice(("omit", "omit", "kw", None)))))
+            else:
+                fns.append(dict(id=counter[0], do="raise"))
+        regs.append(dict(when=when, fns=fns))
+    return regs
+
+
+def decorate(drv, nodes, rng, draw_values, q, counter=None, pool=None, raising=True):
+    """The caller hangs functions of their own (before_close) on a share q of the blocks of a program; a kept object
+    that the program enters several times may get more at every entry."""
+    counter = [0] if counter is None else counter
+    pool = [m for m in drv.drivable if m not in HEAVY] if pool is None else pool
+    for node in nodes:
+        if node["t"] != "block":
+            continue
+        decorate(drv, node["children"], rng, draw_values, q, counter, pool, raising)
+        if node["kind"] != "foreign" and rng.random() < q:
+            node["cbs"] = node.get("cbs", []) + draw_registrations(drv, rng, draw_values, counter, pool, raising=raising)
+    return nodes
 
 
 def exit_patterns(depth):
@@ -801,6 +884,7 @@ def random_program(drv, rng, draw_values, names, light_only, link_cands=None):
 
 
 def random_mc(chk, drv, rng, n):
+    cbrng = random.Random(chk.seed * 1000 + 181)
     for i in range(n):
         w, h, root = rng.choice(MACHINES)
         # candidates for a live Ethernet link: the chips at their board's origin as seen from the root, and a few others
@@ -810,13 +894,16 @@ def random_mc(chk, drv, rng, n):
         cands = sorted(set(cands))
         up = [c for c in cands if rng.random() < 0.6]
 
-        def draw():
+        def draw_with(rng):
             if rng.random() < 0.04:
                 xy = (255, 255)
             else:
                 xy = (rng.randrange(w), rng.randrange(h))
             return dict(x=xy[0], y=xy[1], p=rng.randint(0, 17), processor=rng.randint(0, 17),
                         app_id=rng.randint(1, 255))
+
+        def draw():
+            return draw_with(rng)
         r = rng.random()
         if r < 0.35:
             init = None
@@ -829,7 +916,10 @@ def random_mc(chk, drv, rng, n):
                               link_cands=cands if rng.random() < 0.3 else None)
         if rng.random() < 0.7:
             prog.insert(0, drv.make_call("discover_connections", rng, draw(), rng.choice(("omit", "omit", "kw", "pos"))))
-        yield execute(drv, dict(init=init, w=w, h=h, root=root, up=up, observe=rng.random() < 0.6), prog, "random-mc")
+        observe = rng.random() < 0.6
+        # (the caller's own before_close functions are drawn from another stream: the programs stay what they were)
+        decorate(drv, prog, cbrng, lambda: dict(draw_with(cbrng)), 0.2)
+        yield execute(drv, dict(init=init, w=w, h=h, root=root, up=up, observe=observe), prog, "random-mc")
 
 
 def focus_mc(chk, drv, rng, n):
@@ -891,7 +981,69 @@ def focus_mc(chk, drv, rng, n):
         yield execute(drv, dict(init=init, w=w, h=h, root=root, up=up, observe=rng.random() < 0.6), prog, "focus-mc")
 
 
+# the caller's before_close(...) calls on one context object: (when, number of functions given in the call)
+CB_SHAPES = [[("pre", 1)], [("pre", 2)], [("pre", 1), ("pre", 1)], [("in", 1)], [("late", 1)], [("pre", 1), ("in", 1)],
+             [("pre", 0)], [("pre", 3), ("late", 2)], [("in", 2), ("late", 1)]]
+
+
+def callbacks_mc(chk, drv, rng, n):
+    """Programs about the public API of the context objects besides entering them: the caller registers functions of
+    their own with before_close(...) on the object returned by ctrl.application(...) / ctrl(...) - before the block is
+    entered, inside it, again when a kept object is entered again; none, one or several per call, one or several
+    calls - and the block is left normally, by an exception caught just outside it, or by one caught further out.
+    Every combination of (application | plain block) x CB_SHAPES x the three exits x (fresh | kept and entered again)
+    comes round once in 108 programs."""
+    pool = [m for m in drv.drivable if m not in HEAVY]
+    for i in range(n):
+        w, h, root = rng.choice([(8, 8, (0, 0)), (12, 12, (0, 0)), (24, 12, (7, 3)), (12, 24, (8, 4))])
+        cands = sorted((x, y) for x in range(w) for y in range(h)
+                       if ((x - root[0]) % 12, (y - root[1]) % 12) in ((0, 0), (4, 8), (8, 4)))
+
+        def draw():
+            return dict(x=rng.randrange(w), y=rng.randrange(h), p=rng.randint(0, 17), processor=rng.randint(0, 17),
+                        app_id=rng.randint(1, 255))
+
+        def call(name=None, style="omit"):
+            return drv.make_call(name or rng.choice(pool), rng, draw(), style)
+        counter = [0]
+        j = i
+        is_app, j = j % 2 == 0, j // 2
+        shape, j = CB_SHAPES[j % len(CB_SHAPES)], j // len(CB_SHAPES)
+        exit_kind, j = j % 3, j // 3
+        kept = j % 2 == 1
+        regs = lambda sh=None, raising=False: draw_registrations(drv, rng, draw, counter, pool, sh, raising)
+        v = draw()
+        body = [call(rng.choice(("sdram_alloc", "send_signal", "read", None)))]
+        if rng.random() < 0.3:
+            # an application block of its own inside, with functions of the caller's as well
+            body.append(block("app", [call()], call=drv.app_call(rng, draw()["app_id"], "pos"), raises=rng.random() < 0.3,
+                              cbs=regs(rng.choice(CB_SHAPES))))
+        common = dict(raises=exit_kind > 0, catches=exit_kind < 2, keep=0 if kept else None,
+                      cbs=regs(shape, raising=rng.random() < 0.15))
+        if is_app:
+            how = rng.choice(("pos", "kw", "ctx"))
+            target = block("app", body, call=drv.app_call(rng, v["app_id"], how), stop_fails=rng.random() < 0.08, **common)
+        else:
+            target = block("plain", body, map={k: v[k] for k in ("x", "y", "p", "app_id") if rng.random() < 0.6}, **common)
+        outer_names = [k for k in ("x", "y", "p", "app_id") if rng.random() < 0.7]
+        o = draw()
+        prog = [block("plain", [call(), target, call()], map={k: o[k] for k in outer_names})]
+        if kept:
+            # the same object entered again (no new application(...) call), with more functions registered on it
+            again = dict(target, children=[call()], raises=rng.random() < 0.3, catches=True,
+                         cbs=regs(rng.choice(CB_SHAPES)) if rng.random() < 0.7 else [])
+            prog += [call("send_signal"), again] if rng.random() < 0.5 else \
+                [block("plain", [again, call()], map={k: draw()[k] for k in ("y", "app_id")})]
+        prog.append(call())
+        if rng.random() < 0.6:
+            prog.insert(0, call("discover_connections"))
+        init = rng.choice((None, {}, {k: draw()[k] for k in ("x", "y", "app_id")}))
+        yield execute(drv, dict(init=init, w=w, h=h, root=root, up=[c for c in cands if rng.random() < 0.7],
+                                observe=rng.random() < 0.7), prog, "callbacks-mc")
+
+
 def random_bmp(chk, drv, rng, n):
+    cbrng = random.Random(chk.seed * 1000 + 183)
     for i in range(n):
         nc, nf = rng.randint(1, 2), rng.randint(1, 3)
         hosts = [(c, f) for c in range(nc) for f in range(nf)]
@@ -909,7 +1061,11 @@ def random_bmp(chk, drv, rng, n):
         else:
             v = draw()
             init = {k: v[k] for k in BMP_NAMES if rng.random() < 0.5}
-        yield execute(drv, dict(init=init, hosts=hosts, observe=rng.random() < 0.6), random_program(drv, rng, draw, BMP_NAMES, False), "random-bmp")
+        observe = rng.random() < 0.6
+        prog = random_program(drv, rng, draw, BMP_NAMES, False)
+        decorate(drv, prog, cbrng, lambda: dict(cabinet=cbrng.randrange(nc), frame=cbrng.randrange(nf),
+                                                board=cbrng.choice((0, 1, 2, 5, 23, 7))), 0.2)
+        yield execute(drv, dict(init=init, hosts=hosts, observe=observe), prog, "random-bmp")
 
 
 # ------------------------------------------------------------------------------------------ the check
@@ -923,7 +1079,18 @@ def tally(chk, drv_by_kind, traces):
     per = {}
     for tr in traces:
         drv = drv_by_kind[tr["kind"]]
+        ncb = 0                    # functions of the caller's called since the innermost open block's last other step
         for ev in tr["ev"]:
+            if ev[0] == "cb":
+                ncb += 1
+                chk.count("functions the caller registered with before_close(...) called on leaving a block")
+            elif ev[0] == "exit":
+                if ncb and ev[2]:
+                    chk.count("application blocks left after functions of the caller's ran (%s)"
+                              % ("by exception" if ev[1] == "exception" else "normally"))
+                ncb = 0
+            elif ev[0] != "invoke":
+                ncb = 0
             if ev[0] == "invoke":
                 c = per.setdefault("%s.%s" % (drv.cls.__name__, ev[1]), [0, 0, 0])
                 c[0 if ev[4] == ["ok"] else 1] += 1
@@ -987,6 +1154,7 @@ def run(chk):
     traces += list(small_scope_bmp(chk, bmp, rng))
     traces += list(random_mc(chk, mc, rng, chk.pick(1200, 20000)))
     traces += list(focus_mc(chk, mc, rng, chk.pick(120, 2000)))
+    traces += list(callbacks_mc(chk, mc, random.Random(chk.seed * 1000 + 182), chk.pick(216, 3240)))
     traces += list(random_bmp(chk, bmp, rng, chk.pick(500, 8000)))
     opened = sum(t.pop("opened") for t in traces)
     chk.count("simulated sockets opened (no real socket)", opened)
@@ -1008,7 +1176,12 @@ def run(chk):
                 "arguments); also: file-like views returned by sdram_alloc_as_filelike read / written / sliced / freed "
                 "under later blocks, application context objects kept and entered again (also inside themselves), "
                 "Ethernet links changing between two discoveries, fill() of unaligned regions, transfers of 8-600 "
-                "bytes (one to three commands), and focus programs for each of these (focus_mc)")
+                "bytes (one to three commands), and focus programs for each of these (focus_mc); the caller's own "
+                "before_close(...) functions on 20% of the blocks of the random programs (registered before entering / "
+                "inside the body / again on kept objects; 0-3 functions per call, 1-3 calls; a function records that it "
+                "ran, calls a command - judged like any command called inside the block -, or raises), and "
+                "callbacks_mc: (application | plain block) x nine registration shapes x (normal exit | exception caught "
+                "just outside | caught further out) x (fresh | kept object entered again), each twice")
     chk.exhaustive = False
     chk.assumptions += [
         "the simulated machine acknowledges every command (no time-outs, no error codes); replies are canned",
@@ -1041,6 +1214,17 @@ def selftest(chk):
     bgood = execute(bmp, dict(init=None, hosts=[(0, 0), (0, 1), (0, 1, 6)]),
                     [block("plain", [bomit("read_adc"), bomit("set_power")], map=dict(frame=1, board=6))])
     bgood.pop("opened")
+
+    # the caller's own before_close functions on an application block (one recording, one calling a command) and on
+    # the plain block around it; the application block is left by an exception
+    capp = block("app", [omit("sdram_alloc")], raises=True, catches=True, call=mc.app_call(rng, 40, "kw"),
+                 cbs=[dict(when="pre", fns=[dict(id=1, do="mark")]),
+                      dict(when="in", fns=[dict(id=2, do="invoke", call=omit("send_signal"))])])
+    couter = block("plain", [capp, omit("read")], map=dict(x=9, y=1, p=4), cbs=[dict(when="late", fns=[dict(id=3, do="mark")])])
+    cgood = execute(mc, dict(init=None, w=12, h=12, root=(0, 0), up=[(0, 0)]), [couter])
+    cgood.pop("opened")
+    names = [e[0] if e[0] != "invoke" else e[1] for e in cgood["ev"]]
+    assert names == ["enter", "app", "sdram_alloc", "cb", "cb", "send_signal", "exit", "read", "cb", "exit", "end"], names
 
     def mut(base, f):
         t = copy.deepcopy(base)
@@ -1077,6 +1261,14 @@ def selftest(chk):
         (mut(good, lambda ev: ev.insert(9, ["exit", "normal", [], list(ev[9][1])])), "BalancedExit"),
         (mut(good, swap(1, 2)), "RequiredRejectedBeforeSend"),                  # command before its block
         (mut(good, swap(4, 5)), "ResolvedAppId"),                               # command after its block was left
+        (cgood, None),
+        (mut(cgood, lambda ev: ev[6].__setitem__(2, [])), "ApplicationExitStops"),           # the stop was lost
+        (mut(cgood, lambda ev: ev[6].__setitem__(2, ev[6][2] + ev[5][5])), "ApplicationExitStops"),
+        (mut(cgood, lambda ev: ev[9].__setitem__(2, list(ev[6][2]))), "ApplicationExitStops"),
+        (mut(cgood, lambda ev: ev[3][2].pop()), "CallbackBeforeExit"),
+        (mut(cgood, swap(3, 6)), "CallbackBeforeExit"),         # the block popped, then the function called
+        (mut(cgood, swap(8, 9)), "CallbackBeforeExit"),
+        (mut(cgood, lambda ev: ev[5][5][0][6].__setitem__(0, 66)), "ResolvedAppId"),         # (a signal to application 40)
         (mut(bgood, lambda ev: ev[1][5][0].__setitem__(0, [0, 1])), "RightConnection"),
         (mut(bgood, lambda ev: ev[1][5][0].__setitem__(3, 5)), "ResolvedBoard"),
         (mut(bgood, lambda ev: ev[2][5][0][6].__setitem__(0, 1)), "ResolvedBoard"),
@@ -1090,4 +1282,4 @@ def selftest(chk):
         if (want is None) != (cl is None) or (want and want not in cl):
             msgs.append("expected %s, got %s" % (want, cl))
     return not msgs, "; ".join(msgs) or "%d corrupted / dropped / swapped traces rejected with the expected clauses" % (
-        len(cases) - 2)
+        len(cases) - 3)
